@@ -602,6 +602,34 @@ def sound_rules(F, R):
                         '%s: when the start time can never come the sound is not marked Stopped on every path' % body.path,
                         detail='will_never_start => mark_as_stopped', where=body.where(su[0][0]))
     R.floor('B.C03.gate', ng, 6)
+    # 'every finite non-looping sound reaches its natural end': a sound that is advancing plays - the only exits of process()
+    # that skip the per-frame loop (where the playhead moves and the end is noticed) are the documented silent ones: start
+    # time pending, state not advancing, and for a streaming sound a decoder error or an empty ring buffer
+    for tag, owner in SOUNDS:
+        body = F.body('<%s as sound::Sound>::process' % owner)
+        if body is None:
+            continue
+        loops = [l for l in body.loops() if any((callee_path(body.blocks[x]['term']) or '') == 'parameter::Parameter::<T>::interpolated_value' for x in l['blocks'])]
+        if not R.check(bool(loops), 'B.C03.gate', tag + ':anchor:frame-loop', 'per-frame loop of %s not found' % body.path):
+            continue
+        L = max(loops, key=lambda l: len(l['blocks']))
+        silent = []
+        for callee, side in (('sound::PlaybackState::is_advancing', 1), ('Shared::encountered_error', 0), ('Shared::reached_end', 1)):
+            for x, t in body.calls():
+                if (callee_path(t) or '').endswith(callee) and not body.in_loop(x):
+                    be = bool_edges(body, x)
+                    if be is not None:
+                        silent.append(be[side])
+        for x, t in body.calls():
+            if t['callee'].get('name') == 'ne' and 'start_time::StartTime' in ' '.join(t['callee'].get('args', [])):
+                be = bool_edges(body, x)
+                if be is not None:
+                    silent.append(be[0])
+        skipped = [r for r in body.return_blocks() if not must_pass(body, [0], [r], [L['header']] + silent)]
+        R.check(not skipped, 'B.C03.gate', tag + ':no-other-exit',
+                '%s can return at %s without running its per-frame loop and not through one of the documented silent exits: while that '
+                'path is taken the playhead stands still and the end of the sound is never noticed' % (body.path, body.where(skipped[0]) if skipped else ''),
+                detail={'silent_exits': len(silent)}, where=body.file)
 
     # unload: finished() == (state == Stopped); owners remove with Sound::finished
     nu = 0
@@ -712,7 +740,13 @@ def fade_continuity(F, R, rule='B.SM.fade-continuity'):
             pl0 = t['args'][2].get('pl') if isinstance(t['args'][2], dict) else None
             if l is None and pl0 is not None and all(x[0] in ('downcast', 'field', 'deref') for x in pl0['p']):
                 l = pl0['l']
+            # locals a part of which is overwritten (`tween.duration = ..`): no longer the caller's tween
+            patched = set(s3['lhs']['l'] for _, _, s3 in b.stmts() if s3['k'] == 'assign' and s3['lhs']['p']
+                          and s3['lhs']['p'][0][0] == 'field')
+            touched = False
             for _ in range(6):
+                if l in patched:
+                    touched = True
                 d = b.single_def(l) if l is not None else None
                 if l is not None and 1 <= l <= b.arg_count:
                     break
@@ -723,6 +757,10 @@ def fade_continuity(F, R, rule='B.SM.fade-continuity'):
                         l = d[3]['rv']['op']['pl']['l']
                         continue
                 break
+            if l in patched:
+                touched = True
+            if touched:
+                bad.append('%s changes a field of the tween before it hands it to Parameter::set (duration, start time and easing are the caller\'s)' % b.path)
             if not (l is not None and 1 <= l <= b.arg_count):
                 bad.append('%s hands Parameter::set a tween it built itself (%s), not the caller\'s' % (b.path, describe(b, t['args'][2], depth=3, at=bb)[:60]))
     for b in F.bodies:
